@@ -209,6 +209,24 @@ KindsDisjoint ==
         /\ ~MemberE(acc, p.e)
         /\ \A i \in 1..Len(meta) : \A sp \in BOOLEAN : PLeaf(p.e) # LeafHash(meta[i].id, meta[i].ver, i - 1, sp)
 
+\* A transaction carries several parents (siacoin inputs, siafund inputs, revised contracts, resolved
+\* contracts and, for storage proofs, chain index elements).  It is acceptable iff EVERY one of them is a
+\* member: the verdict is the conjunction over all parents, independent of their order, of the list they
+\* stand in and of what stands before or after them (a renewal, an expiration, a storage proof).
+TxnAccept(a, es) == \A i \in 1..Len(es) : MemberE(a, es[i])
+TxnSound ==
+  Full =>
+    \A hs \in {HashesOf(meta)} :
+      \A np \in {[i \in 0..(acc.n - 1) |-> NaivePath(hs, i)]} :
+        \A p \in Probes :
+          p.src = "L" =>
+            LET i == p.b
+                g == [id |-> meta[i + 1].id, ver |-> meta[i + 1].ver, f |-> 0, idx |-> i, spent |-> meta[i + 1].spent, proof |-> client[i]]
+                x == ExactE(meta, np, p.e)
+            IN /\ TxnAccept(acc, <<p.e, g, g>>) <=> x
+               /\ TxnAccept(acc, <<g, p.e, g>>) <=> x
+               /\ TxnAccept(acc, <<g, g, p.e>>) <=> x
+
 \* Second use in the block.  An earlier, honest transaction of the block under validation may already
 \* have touched the element: revised it (contracts) or spent it (outputs).  What the block has pending
 \* for an ID proves nothing about the element a LATER transaction carries under that ID: after a revision
